@@ -35,6 +35,7 @@ class NetworkStats:
         if type(n_repeats) is float and n_repeats == int(n_repeats):
             n_repeats = int(n_repeats)
         new.total_hops = new.total_hops * n_repeats
+        new.max_traffic = {k: v * n_repeats for k, v in new.max_traffic.items()}
         return new
 
 
